@@ -394,6 +394,14 @@ fn convert_expr(ctx: &mut ResolveContext, e_id: ExprNodeId) -> ExprNodeId {
             for param in &params {
                 ctx.bind_local(param.id);
             }
+            // default values are expressions too (an operator in them is a qualified intrinsic)
+            let params = params
+                .into_iter()
+                .map(|mut param| {
+                    param.default_value = param.default_value.map(|d| convert_expr(ctx, d));
+                    param
+                })
+                .collect::<Vec<_>>();
             let new_body = convert_expr(ctx, body);
             ctx.pop_scope();
             Expr::Lambda(params, r_type, new_body).into_id(loc)
